@@ -17,6 +17,15 @@ _float = builtins.float
 _int = builtins.int
 
 
+class NonFiniteLift(TypeError):
+    """inf/nan met a proxy: a domain error of the concrete computation (log/sqrt of a negative, division by zero in NumPy)"""
+
+    def __init__(self, *a):
+        super().__init__(*a)
+        if ENG is not None:
+            ENG._nonfinite_flag = True      # NumPy turns the TypeError into a generic one: the flag survives
+
+
 class PathAbort(BaseException):
     """Current path is infeasible or was cut by an assumption."""
 
@@ -182,6 +191,7 @@ class Engine:
             self._pc_index = {}
             self.uncertain = False
             self._abort_flag = False
+            self._nonfinite_flag = False
             self._leak_flag = None
             self._budget_flag = None
             prev, ENG = ENG, self
@@ -290,7 +300,7 @@ def _ratval(x):
         return z3.RealVal(str(x))
     x = _float(x)
     if x != x or x in (_float('inf'), -_float('inf')):
-        raise TypeError('non-finite float cannot be lifted')
+        raise NonFiniteLift('non-finite float cannot be lifted')
     return z3.RealVal(repr(x))
 
 
